@@ -3,6 +3,7 @@
 //! truthfulness (C13), drain / reachability (C08), statistics (C15), id uniqueness (C14).
 
 use crate::conc::{COp, CRec, CRes, Execution};
+use crate::hook::Ev;
 use crate::model::{self, Fate, Order};
 use crate::mon;
 use pricelevel::verif::Op;
@@ -296,24 +297,64 @@ pub struct AckStats {
 
 /// intervals [s1, s2] during which thread t held order id k out of the map
 /// (map-remove hit ... next map-insert of the same key by the same thread)
-fn hold_intervals(ex: &Execution) -> Vec<(usize, u128, u64, u64)> {
+/// Intervals [s1, s2] (in event-sequence stamps) during which thread t had order k out of the map.
+/// Primary source: the hook event log (map-remove hit ... next map-insert of the same key by the
+/// same thread).  The instrumentation may be incomplete — a refactoring can reach the map through
+/// an API the wrappers do not hook — so two conservative fall-backs widen the windows instead of
+/// losing them: a remove whose re-insert was not seen is closed at the return of the client call
+/// it belongs to; and a match / amend that visibly handled the order (a transaction names it, or
+/// the amend returned it) although no remove of it was logged holds it for the whole call.
+fn hold_intervals(ex: &Execution, stamps: &dyn Fn(usize) -> Vec<Ev>) -> Vec<(usize, u128, u64, u64)> {
     let mut out = Vec::new();
-    let evs = ex.events();
-    let mut open: HashMap<(usize, u128), u64> = HashMap::new();
-    for (t, e) in &evs {
-        if !e.after {
-            continue;
-        }
-        match e.op {
-            Op::MapRemove if e.hit => {
-                open.insert((*t, e.key), e.seq);
-            }
-            Op::MapInsert => {
-                if let Some(s1) = open.remove(&(*t, e.key)) {
-                    out.push((*t, e.key, s1, e.seq));
+    let n_threads = ex.log.iter().map(|r| r.thread + 1).max().unwrap_or(0);
+    for t in 0..n_threads {
+        let evs = stamps(t);
+        for r in ex.log.iter().filter(|r| r.thread == t) {
+            // only calls that put the order back can "hold" it
+            let handled: Vec<u128> = match (&r.op, &r.res) {
+                (COp::Match { .. }, CRes::Matched(m)) => m
+                    .transactions
+                    .as_vec()
+                    .iter()
+                    .map(|x| model::key(&x.maker_order_id))
+                    .collect(),
+                (COp::Amend { id, .. }, CRes::Updated(Ok(Some(_)))) => vec![model::key(id)],
+                (COp::Match { .. }, _) | (COp::Amend { .. }, _) => vec![],
+                _ => continue,
+            };
+            let inside: Vec<&Ev> = evs.iter().filter(|e| e.seq > r.call && e.seq < r.ret).collect();
+            let mut seen_remove: HashSet<u128> = HashSet::new();
+            let mut open: HashMap<u128, u64> = HashMap::new();
+            let mut last_before: HashMap<u128, u64> = HashMap::new();
+            for e in &inside {
+                if !e.after {
+                    last_before.insert(e.key, e.seq);
+                    continue;
+                }
+                match e.op {
+                    Op::MapRemove if e.hit => {
+                        seen_remove.insert(e.key);
+                        // the window starts before the remove began (matters for E2 stamps)
+                        open.insert(e.key, *last_before.get(&e.key).unwrap_or(&e.seq));
+                    }
+                    Op::MapInsert => {
+                        if let Some(s1) = open.remove(&e.key) {
+                            out.push((t, e.key, s1, e.seq));
+                        }
+                    }
+                    _ => {}
                 }
             }
-            _ => {}
+            // re-insert not seen: the order was back at the latest when the call returned
+            for (k, s1) in open {
+                out.push((t, k, s1, r.ret));
+            }
+            // handled without a logged remove: the whole call
+            for k in handled {
+                if !seen_remove.contains(&k) {
+                    out.push((t, k, r.call, r.ret));
+                }
+            }
         }
     }
     out
@@ -322,7 +363,12 @@ fn hold_intervals(ex: &Execution) -> Vec<(usize, u128, u64, u64)> {
 pub fn ack_truthful(ex: &Execution, st: &mut AckStats) -> (Vec<String>, u64) {
     let mut out = Vec::new();
     let mut k4 = 0u64;
-    let holds = hold_intervals(ex);
+    let e1_events: Vec<Vec<Ev>> = ex.exec.as_ref().map(|e| e.events.clone()).unwrap_or_default();
+    let holds = if ex.exec.is_some() {
+        hold_intervals(ex, &|t| e1_events.get(t).cloned().unwrap_or_default())
+    } else {
+        hold_intervals(ex, &|t| ex.e2_events.get(t).cloned().unwrap_or_default())
+    };
     let evs = ex.events();
     let pre: HashSet<u128> = ex.prog.preload.iter().map(|o| model::key(&model::id_of(o))).collect();
     // when did add(X) return
@@ -404,26 +450,6 @@ pub fn ack_truthful(ex: &Execution, st: &mut AckStats) -> (Vec<String>, u64) {
                     // taken after the operation, so the real moment lies inside that window.  A
                     // miss is explained iff its window overlaps a window in which another thread
                     // had the order out of the map (from before its remove to after its re-insert).
-                    let mut holds: Vec<(usize, u64, u64)> = Vec::new();
-                    for (t, evs) in ex.e2_events.iter().enumerate() {
-                        let mut open: Option<u64> = None;
-                        let mut last_before: u64 = 0;
-                        for e in evs.iter().filter(|e| e.key == id) {
-                            if !e.after {
-                                last_before = e.seq;
-                                continue;
-                            }
-                            match e.op {
-                                Op::MapRemove if e.hit => open = Some(last_before),
-                                Op::MapInsert => {
-                                    if let Some(s0) = open.take() {
-                                        holds.push((t, s0, e.seq));
-                                    }
-                                }
-                                _ => {}
-                            }
-                        }
-                    }
                     let mut misses: Vec<(u64, u64)> = Vec::new();
                     if let Some(evs) = ex.e2_events.get(r.thread) {
                         let mut last_before: u64 = 0;
@@ -438,7 +464,7 @@ pub fn ack_truthful(ex: &Execution, st: &mut AckStats) -> (Vec<String>, u64) {
                     !misses.is_empty()
                         && misses
                             .iter()
-                            .all(|(m0, m1)| holds.iter().any(|(t, h0, h1)| *t != r.thread && h0 <= m1 && m0 <= h1))
+                            .all(|(m0, m1)| holds.iter().any(|(t, k, h0, h1)| *t != r.thread && *k == id && h0 <= m1 && m0 <= h1))
                 } else {
                     // E2 (no event log): only a match, or an amend of the same order, issued by
                     // another thread can hold the order out of the map; if no such call overlaps
